@@ -110,18 +110,31 @@ fn probing() -> bool {
     PROBE.with(|p| p.get())
 }
 
-/// size query on a partially configured packet builder (result ignored; an unwind is caught)
+/// size query on a partially configured packet builder, followed (for small packets) by a real write and
+/// a write into a buffer that is too small: whatever the builder remembers from being measured or written
+/// (results ignored; an unwind is caught) must not survive the setters that follow
 fn pr<W: RtcpPacketWriter>(w: W) -> W {
     if probing() {
-        let _ = guard(|| w.calculate_size().is_ok());
+        if let Ok(Ok(n)) = guard(|| w.calculate_size()) {
+            if n <= 1024 {
+                let mut buf = vec![0xee_u8; n];
+                let _ = guard(|| w.write_into(&mut buf).is_ok());
+                let _ = guard(|| w.write_into(&mut buf[..n / 2]).is_ok());
+            }
+        }
     }
     w
 }
 
-/// the same for FCI builders
+/// the same for FCI builders (written the way the feedback packet writers call them: a buffer of the announced size)
 fn prf<'a, F: FciBuilder<'a>>(f: F) -> F {
     if probing() {
-        let _ = guard(|| f.calculate_size().is_ok());
+        if let Ok(Ok(n)) = guard(|| f.calculate_size()) {
+            if n <= 1024 {
+                let mut buf = vec![0xee_u8; n];
+                let _ = guard(|| f.write_into_unchecked(&mut buf));
+            }
+        }
     }
     f
 }
